@@ -46,9 +46,21 @@ def harness_bin(release=False):
 
 
 def ensure_makefile():
-    mk = os.path.join(COQ, "Makefile")
+    """_CoqProject lists every .v under coq/{Base,Graph,Model,Proofs,Props}; regenerated when the set changes."""
+    files = []
+    for sub in ("Base", "Graph", "Model", "Proofs", "Props"):
+        for d, _, fs in os.walk(os.path.join(COQ, sub)):
+            for f in sorted(fs):
+                if f.endswith(".v") and not f.startswith("."):
+                    files.append(os.path.relpath(os.path.join(d, f), COQ))
+    files.sort()
+    content = ("-Q . CC\n-arg -w -arg -deprecated-hint-without-locality,-deprecated-instance-without-locality\n"
+               + "\n".join(files) + "\n")
     cp = os.path.join(COQ, "_CoqProject")
-    if not os.path.exists(mk) or os.path.getmtime(mk) < os.path.getmtime(cp):
+    mk = os.path.join(COQ, "Makefile")
+    old = open(cp).read() if os.path.exists(cp) else ""
+    if old != content or not os.path.exists(mk):
+        open(cp, "w").write(content)
         sh(["coq_makefile", "-f", "_CoqProject", "-o", "Makefile"], cwd=COQ)
 
 
